@@ -364,13 +364,25 @@ func (g *gen) sCall(fc *fctx) []Stmt {
 		// call through a table field (incl. keys that are not identifiers, and the empty string)
 		g.use("fieldcall")
 		tb := g.fresh("fh")
-		key := []string{"f", "", "a b", "m.n", "end", "x1"}[g.ch(6)]
-		names := g.bindResults(fc, f.sig)
-		return []Stmt{
-			&Local{Names: []string{tb}, Exprs: []Expr{TableCons{}}},
-			&Assign{Targets: []Expr{Index{Var{tb}, Str{key}}}, Exprs: []Expr{Var{f.name}}},
-			&Call{Names: names, Fn: Index{Var{tb}, Str{key}}, Args: args},
+		var key Expr = Str{[]string{"f", "", "a b", "m.n", "end", "x1"}[g.ch(6)]}
+		var pre []Stmt
+		switch g.ch(4) {
+		case 0:
+			// a call site without a static function name: a numeric or a computed key
+			g.use("anonymous_lua_callee")
+			key = Num{float64(1 + g.ch(3))}
+		case 1:
+			g.use("anonymous_lua_callee")
+			kn := g.fresh("fk")
+			pre = []Stmt{&Local{Names: []string{kn}, Exprs: []Expr{Str{"k"}}}}
+			key = Var{kn}
 		}
+		names := g.bindResults(fc, f.sig)
+		return append(pre,
+			&Local{Names: []string{tb}, Exprs: []Expr{TableCons{}}},
+			&Assign{Targets: []Expr{Index{Var{tb}, key}}, Exprs: []Expr{Var{f.name}}},
+			&Call{Names: names, Fn: Index{Var{tb}, key}, Args: args},
+		)
 	}
 	switch {
 	case len(f.sig.rets) == 0 || (!hasFn && g.ch(4) == 0):
@@ -1017,10 +1029,25 @@ func (g *gen) yieldBoundary(fc *fctx) []Stmt {
 	g.use("yield_across_boundary")
 	g.cost(25)
 	ok, e, tmp := g.fresh("ok"), g.fresh("ye"), g.fresh("yt")
-	yield := &Call{Fn: Var{"coyield"}, Args: []Expr{g.numExpr(0)}}
+	var yield Stmt = &Call{Fn: Var{"coyield"}, Args: []Expr{g.numExpr(0)}}
 	unreachable := &Call{Fn: Var{"emit"}, Args: []Expr{Str{"unreachable"}}}
+	tail := g.ch(3) == 0
+	if tail {
+		// the refused yield stands in tail position: `return coroutine.yield(v)`
+		g.use("yield_across_boundary_in_tail_position")
+		yield = &ReturnCall{Fn: Var{"coyield"}, Args: []Expr{g.numExpr(0)}}
+	}
 	// function literals are bound to a local first (the renderer's rule); def returns the declaration and the name
 	def := func(params []string, body ...Stmt) (Stmt, Var) {
+		if tail {
+			// nothing may follow a return
+			for k, st := range body {
+				if st == yield {
+					body = body[:k+1]
+					break
+				}
+			}
+		}
 		g.prog.NFuncs++
 		n := g.fresh("bf")
 		return &Local{Names: []string{n}, Exprs: []Expr{Func{&FuncDef{ID: g.prog.NFuncs, Params: params, Body: body}}}}, Var{n}
@@ -1086,7 +1113,7 @@ func (g *gen) yieldBoundary(fc *fctx) []Stmt {
 		d1, f1 := def(nil, inner...)
 		d2, f2 := def([]string{h}, &Return{Exprs: []Expr{Var{h}}})
 		out = []Stmt{d1, d2, &Call{Names: []string{ok, e}, Fn: Var{"xpcall"}, Args: []Expr{f1, f2}}}
-	case g.ch(8) == 0:
+	case g.ch(8) == 0 && !tail:
 		// unprotected: the refusal kills the coroutine like any other error
 		g.use("yield_across_boundary_unprotected")
 		return inner
